@@ -120,6 +120,8 @@ pub const TOKENS: &[&str] = &[
     "=",
     "\\",
     "é!(",
+    "𠮷!(\"",
+    "日!(\"",
     "log::warn!(a = 1; \"",
     " // breadlog:ignore\n",
     "'",
@@ -365,6 +367,9 @@ pub const TEXTS: &[&str] = &[
     "\u{feff}info!(\"bom\");\n",
     "é!(\"x\")",
     "ünï::info!(\"x\");",
+    "𠮷!(\"four-byte first character\");\ninfo!(\"after\");\n",
+    "fn f() { 日本!(\"three-byte\"); 𝒳y!(\"math letter\"); a𠮷!(\"later\"); }\n",
+    "\u{10000}!(\"first supplementary-plane letter\")",
     "info!(target: \"t\", a = 1, b:? = c; \"m {}\", 1);\n",
     "info!(\"\\\\\"); warn!(\"\\\"\");",
     "info!(a = \"unterminated; \"m\")",
